@@ -204,7 +204,7 @@ from . import plx  # noqa: E402
 
 FAMILIES.append(
     Family("polars_inputs", plx.eval_c06,
-           strategy=lambda: plx.strat_case(parsers="many", containers=("df", "df", "lf_full", "lf"), drop_rate=2, subsample_rate=2, regex_rate=2, nan_rate=2),
+           strategy=lambda: plx.strat_case(parsers="many", containers=("df", "df", "lf_full", "lf"), drop_rate=2, subsample_rate=2, regex_rate=2, nan_rate=2, nfc_rate=2),
            n_quick=600, n_thorough=3000, shards_quick=3, shards_thorough=12,
            required_labels=["container=lf", "container=lf_full", "drop_invalid_rows", "subsample", "outcome=SchemaErrors"]))
 
